@@ -64,9 +64,33 @@ func (f *indexRespFilter) validate() (err error) {
 
 	if _, err = filter.NewID(f.Key); err != nil {
 		errs = append(errs, fmt.Errorf("filterKey: %w", err))
+	} else if isReservedKey(f.Key) {
+		errs = append(errs, fmt.Errorf("filterKey: %w: %q is reserved", errors.ErrBadEnumValue, f.Key))
 	}
 
 	return errors.Join(errs...)
+}
+
+// isReservedKey returns true if key cannot be used as the ID of a rule list
+// from the index, because it is the ID of a special filter or the name of a
+// cache file of another filter.  Rule lists are cached in the same directory
+// under their IDs.
+func isReservedKey(key string) (ok bool) {
+	switch key {
+	case
+		indexFileNameBlockedServices,
+		indexFileNameRuleLists,
+		string(filter.IDAdultBlocking),
+		string(filter.IDBlockedService),
+		string(filter.IDCustom),
+		string(filter.IDGeneralSafeSearch),
+		string(filter.IDNewRegDomains),
+		string(filter.IDSafeBrowsing),
+		string(filter.IDYoutubeSafeSearch):
+		return true
+	default:
+		return false
+	}
 }
 
 // indexData is the data of a single item in the filtering-rule index response.
